@@ -192,6 +192,16 @@ func RandomScript(rng *rand.Rand, idx int, nproofs int) tf.Script {
 					minH = resolvedAt[id]
 				}
 			}
+			// now and then a batch that also names a result that does not exist (yet), at any position: no proof is due,
+			// and none may be handed out for the rest either
+			if rng.Intn(4) == 0 {
+				bad := nreq + 1 + rng.Intn(3)
+				if len(pending) > 0 && rng.Intn(2) == 0 {
+					bad = pending[0].id
+				}
+				pos := rng.Intn(len(ids) + 1)
+				ids = append(ids[:pos], append([]int{bad}, ids[pos:]...)...)
+			}
 			st["rids"] = ids
 			st["h"] = pickH(minH)
 		default:
